@@ -457,7 +457,8 @@ func c02Scopes(c *Check) {
 				return
 			}
 			own, fld, _, ok := fieldOfAddr(st.Addr)
-			if !ok || own == nil || own.Obj().Name() != "TreeShapeListener" {
+			// (a field of the listener, or of a stack type of the package the listener holds)
+			if !ok || own == nil || own.Obj().Pkg() == nil || own.Obj().Pkg().Path() != repoMod+"/pkg/parse" {
 				return
 			}
 			sl, ok := st.Addr.Type().Underlying().(*types.Pointer).Elem().Underlying().(*types.Slice)
